@@ -186,20 +186,20 @@ def audit(prop, log):
     m = re.search(r'AUDIT-DEPS (\d+)', r.stdout)
     if m:
         res['dep_theorems'] = int(m.group(1))
-    # forbidden tokens (comments stripped)
-    for root, _, files in os.walk(os.path.join(LEAN, 'QRV')):
-        for fn in files:
-            if not fn.endswith('.lean') or fn == 'Audit.lean':
-                continue
-            p = os.path.join(root, fn)
-            if os.path.getsize(p) > 2_000_000:
-                continue
-            src = open(p).read()
-            src = re.sub(r'/-.*?-/', lambda mm: '\n' * mm.group(0).count('\n'), src, flags=re.S)
-            for i, l in enumerate(src.splitlines(), 1):
-                l = l.split('--')[0]
-                if FORBIDDEN.search(l):
-                    res['forbidden'].append('%s:%d: %s' % (os.path.relpath(p, LEAN), i, l.strip()[:80]))
+    # forbidden tokens (comments stripped) in every hand-written module the property file depends on
+    mods = re.findall(r'AUDIT-MODULE (\S+)', r.stdout)
+    for mname in mods:
+        if mname == 'QRV.Audit' or mname.startswith('QRV.Gen.'):
+            continue
+        p = os.path.join(LEAN, *mname.split('.')) + '.lean'
+        if not os.path.exists(p):
+            continue
+        src = open(p).read()
+        src = re.sub(r'/-.*?-/', lambda mm: '\n' * mm.group(0).count('\n'), src, flags=re.S)
+        for i, l in enumerate(src.splitlines(), 1):
+            l = l.split('--')[0]
+            if FORBIDDEN.search(l):
+                res['forbidden'].append('%s:%d: %s' % (os.path.relpath(p, LEAN), i, l.strip()[:80]))
     if res['forbidden']:
         res['ok'] = False
     if not res['theorems']:
